@@ -141,6 +141,64 @@ static void replay_draws(const mcenv::CoinSource &used, std::vector<Z> &out)
 	mcenv::cur = old;
 }
 
+// ---------------------------------------------------------------------------------------------- two roles, one extra thread
+struct Worker {
+	std::thread th;
+	std::mutex mu;
+	std::condition_variable cv;
+	std::function<void()> job;
+	bool has, done, quit;
+	Worker() : has(false), done(false), quit(false)
+	{
+		th = std::thread([this]() {
+			std::unique_lock<std::mutex> lk(mu);
+			for (;;)
+			{
+				cv.wait(lk, [this]() { return has || quit; });
+				if (quit) return;
+				std::function<void()> j = job;
+				has = false;
+				lk.unlock();
+				j();
+				lk.lock();
+				done = true;
+				cv.notify_all();
+			}
+		});
+	}
+	void start(const std::function<void()> &j) { std::unique_lock<std::mutex> lk(mu); job = j, has = true, done = false; cv.notify_all(); }
+	void wait() { std::unique_lock<std::mutex> lk(mu); cv.wait(lk, [this]() { return done; }); }
+	~Worker() { { std::unique_lock<std::mutex> lk(mu); quit = true; cv.notify_all(); } th.join(); }
+};
+
+static wire::Outcome run2_persistent(wire::Duplex &d, const std::function<bool(std::iostream &)> &roleA, const std::function<bool(std::iostream &)> &roleB,
+	mcenv::CoinSource *csA, mcenv::CoinSource *csB)
+{
+	static Worker W;
+	wire::Outcome o;
+	o.a_ok = o.b_ok = false, o.a_threw = o.b_threw = false, o.timeout = false;
+	W.start([&]() {
+		mcenv::cur = csB;
+		try { o.b_ok = roleB(d.B); }
+		catch (std::exception &e) { o.b_threw = true; o.b_what = e.what(); }
+		catch (...) { o.b_threw = true; o.b_what = "non-std exception"; }
+		d.B.flush();
+		d.ba.close();
+		mcenv::cur = nullptr;
+	});
+	mcenv::CoinSource *old = mcenv::cur;
+	mcenv::cur = csA;
+	try { o.a_ok = roleA(d.A); }
+	catch (std::exception &e) { o.a_threw = true; o.a_what = e.what(); }
+	catch (...) { o.a_threw = true; o.a_what = "non-std exception"; }
+	d.A.flush();
+	d.ab.close();
+	mcenv::cur = old;
+	W.wait();
+	o.timeout = d.any_timeout();
+	return o;
+}
+
 static void run_ot(const Group &G, int variant, size_t N, size_t sigma, const std::vector<Z> &M, uint64_t seed,
 	const wire::Relay &relay, const Steer *stC, const Steer *stS, Run &r)
 {
@@ -154,7 +212,9 @@ static void run_ot(const Group &G, int variant, size_t N, size_t sigma, const st
 	std::vector<mpz_ptr> Mp;
 	for (size_t i = 0; i < M.size(); i++)
 		Mp.push_back(const_cast<mpz_ptr>(M[i].v));
-	r.o = wire::run2(d,
+	// chooser = side A on this thread, sender = side B on a persistent worker thread (same semantics as wire::run2,
+	// without creating two threads per run: ~10^5 runs per shard)
+	r.o = run2_persistent(d,
 		[&](std::iostream &s) -> bool {
 			switch (variant)
 			{
@@ -170,7 +230,7 @@ static void run_ot(const Group &G, int variant, size_t N, size_t sigma, const st
 				case V_N: return G.sender->Send_interactive_OneOutOfN(Mp, s, s);
 				default: return G.sender->Send_interactive_OneOutOfN_optimized(Mp, s, s);
 			}
-		}, seed, &csC, &csS);
+		}, &csC, &csS);
 	r.first_sent = d.ab.sent, r.first_seen = d.ab.forwarded, r.second = d.ba.sent;
 	replay_draws(csC, r.cdraws);
 	replay_draws(csS, r.sdraws);
